@@ -776,4 +776,329 @@ theorem getDescValue_view (r : R) (hI : RInv r) (n m : Node) (rest : List Bool) 
     exact ⟨r2, by simp [e2], hb2, hI2⟩
   all_goals exact ⟨r1, rfl, by simpa using hb1, hI1⟩
 
+/-! ### one subset, uncompressed, static layout -/
+
+/-- the widths the library supports for a data-bearing node -/
+def widthOK (m : Node) : Prop :=
+  (match m.enc.type with
+   | .ccitt => 8 ≤ m.enc.nbits
+   | .ieee => m.enc.nbits = 32 ∨ m.enc.nbits = 64
+   | .numeric | .chngRef | .codetable | .flagtable => 1 ≤ m.enc.nbits ∧ m.enc.nbits ≤ 64
+   | _ => True) ∧ m.afW ≤ 64
+
+/-- decoder node `n` and encoder node `m` describe the same position of the same layout -/
+structure Pair (n m : Node) : Prop where
+  enc : n.enc = m.enc
+  skipped : n.flags.skipped = m.flags.skipped
+  data : n.flags.skipped = false →
+    ((mkvalNode n).val.isSome = true ∧ (mkvalNode n).afW = m.afW ∧ widthOK m) ∨
+    ((mkvalNode n).val.isSome = false ∧ nodeBits m = [])
+
+/-- what the decoder leaves in position `n` after reading the bits of `m` -/
+def readBack' (n m : Node) : Node :=
+  if n.flags.skipped then n else if (mkvalNode n).val.isSome then readBack n m else mkvalNode n
+
+/-- the decoder's list is a fixed point of Table C application from state `ddo`, holds no new
+reference value definitions (2 03) and no unexpanded delayed replication -/
+def staticOK (T : Tables) (edition : Nat) : DDO → List Node → Bool
+  | _, [] => true
+  | ddo, n :: ns =>
+    let a := applyTables2node T edition ddo n
+    decide (a.2.1 = n) && !a.2.2 && decide (n.enc.type ≠ .chngRef) &&
+    !(decide (Desc.f n.desc = 1) && decide (Desc.y n.desc = 0) && !n.flags.skipped) &&
+    staticOK T edition a.1 ns
+
+theorem readBack_enc (n m : Node) : (readBack n m).enc = (mkvalNode n).enc ∧ (readBack n m).desc = (mkvalNode n).desc := by
+  unfold readBack
+  simp only
+  split <;> (try split) <;> (try split) <;> simp
+
+theorem mkvalNode_enc (n : Node) : (mkvalNode n).enc = n.enc ∧ (mkvalNode n).desc = n.desc := by
+  unfold mkvalNode
+  by_cases h1 : n.val.isSome
+  · simp [h1]
+  · simp only [h1]
+    by_cases h2 : (freshVal n.enc).isSome <;> simp [h2]
+
+/-- **one subset of a static layout is decoded position by position**: the loop of
+`bufr_decode_message_subsets` walks the whole list, re-derives the same encodings, reads every
+data-bearing node from exactly the bits the encoder wrote for it, raises no error and consumes
+exactly the subset -/
+theorem decodeSubsetLoop_static (T : Tables) (edition s4max : Nat) :
+    ∀ (nodes ms : List Node) (fuel : Nat) (ddo : DDO) (st : DecSt) (done : List Node) (rest : List Bool),
+    nodes.length < fuel → staticOK T edition ddo nodes = true → List.Forall₂ Pair nodes ms →
+    RInv st.r → st.r.bits = ms.flatMap nodeBits ++ rest →
+    ∃ r', decodeSubsetLoop T edition s4max fuel ddo st done nodes =
+        .ok ({ st with r := r' }, done.reverse ++ List.zipWith readBack' nodes ms, .complete) ∧
+      r'.bits = rest ∧ RInv r' := by
+  intro nodes
+  induction nodes with
+  | nil =>
+    intro ms fuel ddo st done rest hf _ hp hI hb
+    cases hp
+    cases fuel with
+    | zero => simp at hf
+    | succ f => exact ⟨st.r, by simp [decodeSubsetLoop], by simpa using hb, hI⟩
+  | cons n ns ih =>
+    intro ms fuel ddo st done rest hf hok hp hI hb
+    cases hp with
+    | cons hpair hps =>
+    rename_i m ms'
+    cases fuel with
+    | zero => simp at hf
+    | succ f =>
+    simp only [staticOK, Bool.and_eq_true, decide_eq_true_eq, Bool.not_eq_true', Bool.not_eq_eq_eq_not,
+      Bool.not_true] at hok
+    obtain ⟨⟨⟨⟨hfix, herr⟩, hnc⟩, hnd⟩, hrest⟩ := hok
+    rw [List.flatMap_cons, List.append_assoc] at hb
+    unfold decodeSubsetLoop
+    generalize ha : applyTables2node T edition ddo n = a at hfix herr hrest
+    obtain ⟨ddo1, n1, err⟩ := a
+    simp only at hfix herr hrest
+    subst hfix
+    subst herr
+    simp only [Bool.or_false]
+    by_cases hsk : n1.flags.skipped = true
+    · -- nothing on the wire
+      rw [if_pos hsk]
+      have hm : nodeBits m = [] := by
+        unfold nodeBits; rw [← hpair.skipped, hsk]; simp
+      rw [hm, List.nil_append] at hb
+      obtain ⟨r', e, hb', hI'⟩ := ih ms' f ddo1 st (n1 :: done) rest (by simp at hf; omega) hrest hps hI hb
+      refine ⟨r', ?_, hb', hI'⟩
+      rw [e]
+      simp [readBack', hsk]
+    · have hsk' : n1.flags.skipped = false := by simpa using hsk
+      rw [if_neg hsk]
+      rcases hpair.data hsk' with ⟨hv, hafw, hw⟩ | ⟨hv, hnb⟩
+      · -- a value is read
+        have hl : SameLayout n1 m := ⟨hpair.enc, hpair.skipped, hafw, hv⟩
+        have hms : m.flags.skipped = false := by rw [← hpair.skipped]; exact hsk'
+        obtain ⟨r2, e2, hb2, hI2⟩ := getDescValue_view st.r hI n1 m _ hl hms hw.1 hw.2 hb
+        rw [e2]
+        simp only
+        have hrenc := readBack_enc n1 m
+        have hmenc := mkvalNode_enc n1
+        have hcr : applyOpCrefval T ddo1 (readBack n1 m) = ddo1 := by
+          unfold applyOpCrefval
+          rw [hrenc.1, hmenc.1]
+          simp [hnc]
+        rw [hcr]
+        have hnd' : ¬ (Desc.f (readBack n1 m).desc = 1 ∧ Desc.y (readBack n1 m).desc = 0) := by
+          rw [hrenc.2, hmenc.2]
+          intro ⟨h1, h2⟩
+          simp [h1, h2, hsk'] at hnd
+        rw [if_neg hnd']
+        obtain ⟨r', e, hb', hI'⟩ := ih ms' f ddo1 { st with r := r2 } (readBack n1 m :: done) rest
+          (by simp at hf; omega) hrest hps hI2 hb2
+        refine ⟨r', ?_, hb', hI'⟩
+        rw [e]
+        simp [readBack', hsk', hv]
+      · -- a node without a value (an operator): `bufr_get_desc_value` returns at once
+        rw [hnb, List.nil_append] at hb
+        have e2 : getDescValue st.r n1 = some (st.r, mkvalNode n1) := by
+          unfold getDescValue
+          simp [hsk', hv]
+        rw [e2]
+        simp only
+        have hmenc := mkvalNode_enc n1
+        have hcr : applyOpCrefval T ddo1 (mkvalNode n1) = ddo1 := by
+          unfold applyOpCrefval
+          rw [hmenc.1]
+          simp [hnc]
+        rw [hcr]
+        have hnd' : ¬ (Desc.f (mkvalNode n1).desc = 1 ∧ Desc.y (mkvalNode n1).desc = 0) := by
+          rw [hmenc.2]
+          intro ⟨h1, h2⟩
+          simp [h1, h2, hsk'] at hnd
+        rw [if_neg hnd']
+        obtain ⟨r', e, hb', hI'⟩ := ih ms' f ddo1 st (mkvalNode n1 :: done) rest
+          (by simp at hf; omega) hrest hps hI hb
+        refine ⟨r', ?_, hb', hI'⟩
+        rw [e]
+        simp [readBack', hsk', hv]
+
+/-! ### the decoder re-derives the layout the encoder used -/
+
+theorem applyWidth_upd (ddo1 : DDO) (n : Node) (f : Flags) (e' : Enc) (a : List Nat) (w : Nat) (c : Bool) (e : Enc) :
+    applyWidth ddo1 { n with flags := f, enc := e', af := a, afW := w } c e = applyWidth ddo1 n c e := by
+  unfold applyWidth applyNumeric
+  rfl
+
+theorem applyTail_idem (ddo1 : DDO) (n : Node) (e1 : Enc) (err1 : Bool) :
+    applyTail ddo1 (applyTail ddo1 n e1 err1).2.1 e1 err1 = applyTail ddo1 n e1 err1 := by
+  unfold applyTail
+  simp only [Bool.or_assoc, Bool.or_self, applyWidth_upd]
+  have haf : ∀ c, applyAFList ddo1 c e1 (applyAFList ddo1 c e1 n.af) = applyAFList ddo1 c e1 n.af := by
+    intro c; unfold applyAFList; split <;> simp_all
+  rw [haf]
+  by_cases hc : (afApplies ddo1 (n.flags.class31 || decide (Desc.x n.desc = 31)) e1 && n.val.isSome && n.afW == 0) = true
+  · simp only [hc, if_true]
+    split <;> rfl
+  · simp only [hc, Bool.false_eq_true, if_false]
+
+theorem applyTail_desc (d : DDO) (n : Node) (e : Enc) (b : Bool) : (applyTail d n e b).2.1.desc = n.desc := by
+  unfold applyTail; simp
+theorem applyTail_skipped (d : DDO) (n : Node) (e : Enc) (b : Bool) :
+    (applyTail d n e b).2.1.flags.skipped = n.flags.skipped := by
+  unfold applyTail; simp
+
+/-- **Table C application is idempotent**: applying `bufr_apply_tables2node` to a node it has
+already processed, from the same operator state, changes nothing — which is why the decoder, which
+applies the tables to its template copy and then again while reading, sees the layout the encoder
+wrote -/
+theorem applyTables2node_idem (T : Tables) (edition : Nat) (ddo : DDO) (n : Node) :
+    applyTables2node T edition ddo (applyTables2node T edition ddo n).2.1 = applyTables2node T edition ddo n := by
+  by_cases hop : Desc.f n.desc = 2 ∧ (!n.flags.skipped) = true
+  · have h1 : applyTables2node T edition ddo n =
+        applyTail (resolveTableC ddo (Desc.x n.desc) (Desc.y n.desc) edition).ddo n
+          (match (resolveTableC ddo (Desc.x n.desc) (Desc.y n.desc) edition).enc with
+            | some (t, nb) => { reassign n.desc (baseEnc T ddo n.desc) with type := t, nbits := nb }
+            | none => reassign n.desc (baseEnc T ddo n.desc))
+          (decide ((resolveTableC ddo (Desc.x n.desc) (Desc.y n.desc) edition).rc < 0)) := by
+      unfold applyTables2node; simp only; rw [if_pos hop]; try rfl
+    rw [h1]
+    unfold applyTables2node
+    simp only [applyTail_desc, applyTail_skipped]
+    rw [if_pos hop]
+    exact applyTail_idem _ _ _ _
+  · have h1 : applyTables2node T edition ddo n =
+        applyTail ddo n (reassign n.desc (baseEnc T ddo n.desc)) false := by
+      unfold applyTables2node; simp only; rw [if_neg hop]; try rfl
+    rw [h1]
+    unfold applyTables2node
+    simp only [applyTail_desc, applyTail_skipped]
+    rw [if_neg hop]
+    exact applyTail_idem _ _ _ _
+
+/-- the decoder's own template copy: whatever list Table C application produced, every node of it is
+a fixed point of a second application along the same operator states -/
+theorem applyTablesAll_fixed (T : Tables) (edition : Nat) : ∀ (ns : List Node) (ddo : DDO),
+    applyTablesAll T edition ddo (applyTablesAll T edition ddo ns).1 = applyTablesAll T edition ddo ns := by
+  intro ns
+  induction ns with
+  | nil => intro ddo; simp [applyTablesAll]
+  | cons n ns ih =>
+    intro ddo
+    simp only [applyTablesAll]
+    rw [applyTables2node_idem, ih]
+
+/-- `staticOK` without the fixed-point clause: a property of the template alone -/
+def plainOK (T : Tables) (edition : Nat) : DDO → List Node → Bool
+  | _, [] => true
+  | ddo, n :: ns =>
+    let a := applyTables2node T edition ddo n
+    !a.2.2 && decide (n.enc.type ≠ .chngRef) &&
+    !(decide (Desc.f n.desc = 1) && decide (Desc.y n.desc = 0) && !n.flags.skipped) &&
+    plainOK T edition a.1 ns
+
+/-- the decoder's template copy (`bufr_apply_Tables` over the expanded template) is static as soon as
+it raises no operator error and holds no 2 03 definitions and no delayed replication -/
+theorem staticOK_of_applied (T : Tables) (edition : Nat) : ∀ (ns : List Node) (ddo : DDO),
+    plainOK T edition ddo (applyTablesAll T edition ddo ns).1 = true →
+    staticOK T edition ddo (applyTablesAll T edition ddo ns).1 = true := by
+  intro ns
+  induction ns with
+  | nil => intro ddo _; simp [applyTablesAll, staticOK]
+  | cons n ns ih =>
+    intro ddo h
+    simp only [applyTablesAll] at h ⊢
+    simp only [plainOK, applyTables2node_idem, Bool.and_eq_true] at h
+    simp only [staticOK, applyTables2node_idem, Bool.and_eq_true, decide_eq_true_eq]
+    obtain ⟨⟨⟨h1, h2⟩, h3⟩, h4⟩ := h
+    exact ⟨⟨⟨⟨trivial, h1⟩, by simpa using h2⟩, h3⟩, ih _ h4⟩
+
+/-! ### every subset, uncompressed, static layout -/
+
+/-- **all subsets of a static layout**: the `for` loop of `bufr_decode_message_subsets` returns one
+decoded subset per encoded subset, in order, each read position by position, and never raises the
+invalid flag -/
+theorem decodeUncompressed_static (T : Tables) (edition : Nat) (enforce : Enforce) (fuel s4max : Nat)
+    (bsq : List Node) (nbitsSeq : Int) (lenConst : Bool) (from_ to_ : Int)
+    (hkeep : lenConst = true ∨ from_ ≤ 0)
+    (hfuel : bsq.length < fuel) (hok : staticOK T edition { enforce := enforce } bsq = true) :
+    ∀ (mss : List (List Node)) (j : Nat) (st : DecSt) (acc : List (List Node)) (rest : List Bool),
+    (∀ ms ∈ mss, List.Forall₂ Pair bsq ms) → RInv st.r →
+    st.r.bits = mss.flatMap (fun ms => ms.flatMap nodeBits) ++ rest →
+    ∃ st', decodeUncompressed T edition enforce fuel s4max bsq nbitsSeq lenConst from_ to_ mss.length j st acc =
+        .ok (st', acc.reverse ++ mss.map (fun ms => mkvalAll (List.zipWith readBack' bsq ms))) ∧
+      st'.invalid = st.invalid ∧ st'.r.bits = rest ∧ RInv st'.r := by
+  intro mss
+  induction mss with
+  | nil =>
+    intro j st acc rest _ hI hb
+    exact ⟨st, by simp [decodeUncompressed], rfl, by simpa using hb, hI⟩
+  | cons ms mss ih =>
+    intro j st acc rest hp hI hb
+    rw [List.flatMap_cons, List.append_assoc] at hb
+    obtain ⟨r', e, hb', hI'⟩ := decodeSubsetLoop_static T edition s4max bsq ms fuel { enforce := enforce } st []
+      _ hfuel hok (hp ms (by simp)) hI hb
+    simp only [List.length_cons, decodeUncompressed, e]
+    have hk : (lenConst = true ∨ from_ ≤ 0 ∨ (from_ ≤ (j : Int) + 1 ∧ (j : Int) + 1 ≤ to_)) := by
+      rcases hkeep with h | h
+      · exact Or.inl h
+      · exact Or.inr (Or.inl h)
+    simp only [hk, if_true, List.reverse_nil, List.nil_append]
+    obtain ⟨st', e2, hinv, hb2, hI2⟩ := ih (j + 1)
+      { st with r := r', s4len := st.s4len + (if lenConst then nbitsSeq else
+          estimateSeqLength T fuel (List.zipWith readBack' bsq ms)) }
+      (mkvalAll (List.zipWith readBack' bsq ms) :: acc) rest
+      (fun m hm => hp m (by simp [hm])) hI' hb'
+    refine ⟨st', ?_, hinv, hb2, hI2⟩
+    rw [e2]
+    simp
+
+/-! ### encoder output into the decoder -/
+
+theorem padSection4_bits (edition : Nat) (w : W) (hI : WInv w) :
+    ∃ z, (padSection4 edition w).bits = w.bits ++ z ∧ WInv (padSection4 edition w) := by
+  unfold padSection4
+  simp only
+  by_cases h : edition ≤ 3 ∧ (w.filled + 4 + (if w.bitno > 0 then 1 else 0)) % 2 = 1
+  · rw [if_pos h]
+    obtain ⟨p1, p2⟩ := putbits_bits w 0 (if w.bitno = 0 then 8 else 8 - w.bitno + 8) hI
+    exact ⟨_, p1, p2⟩
+  · rw [if_neg h]; exact ⟨[], by simp, hI⟩
+
+/-- the data section the uncompressed encoder produces, as the decoder's reader sees it: the
+elements of every subset in order, then padding -/
+theorem encodeData_reader (ss : List (List Node)) (dataFlag edition : Nat) :
+    ∃ pad, (R.ofBytes (padSection4 edition (encodeData ss dataFlag 0).2).bytes).bits =
+      ss.flatMap (fun s => s.flatMap nodeBits) ++ pad ∧
+      RInv (R.ofBytes (padSection4 edition (encodeData ss dataFlag 0).2).bytes) := by
+  have h0 : WInv ((W.new 0).alloc (s4Estimate ss)) := alloc_inv _ _ (WInv_new 0)
+  have hb0 : ((W.new 0).alloc (s4Estimate ss)).bits = [] := by
+    unfold W.alloc W.new W.bits; split <;> simp
+  have he : (encodeData ss dataFlag 0).2 =
+      ss.foldl (fun w s => s.foldl putDescValue w) ((W.new 0).alloc (s4Estimate ss)) := by
+    unfold encodeData; simp
+  obtain ⟨p1, p2⟩ := encode_subsets_bits ss _ h0
+  rw [hb0, List.nil_append] at p1
+  rw [he]
+  obtain ⟨z, q1, q2⟩ := padSection4_bits edition _ p2
+  obtain ⟨pad, hall⟩ := ofBytes_allBits _ q2
+  refine ⟨z ++ pad, ?_, ⟨by simp [R.ofBytes]⟩⟩
+  have : ∀ r : R, r.pos = 0 → r.bits = r.allBits := by
+    intro r h; unfold R.bits; rw [h]; simp
+  rw [this _ (by simp [R.ofBytes, R.pos]), hall, q1, p1, List.append_assoc]
+
+/-- **C01, static templates.** For every list `bsq` the decoder derives for a template without
+delayed replication and without 2 03 (any Table B/D content, any operators 2 01/2 02/2 04–2 09, any
+fixed replication), every number of subsets and every assignment of values whose nodes `ss` share that
+layout: decoding the uncompressed encoding returns the same number of subsets, each with the same
+descriptor positions, every data-bearing position read from exactly the bits its own value was written
+to (`readBack'`), and the dataset is not flagged invalid. -/
+theorem encode_decode_static (T : Tables) (edition : Nat) (enforce : Enforce) (fuel s4max : Nat)
+    (bsq : List Node) (nbitsSeq : Int) (ss : List (List Node)) (dataFlag : Nat)
+    (hfuel : bsq.length < fuel) (hok : staticOK T edition { enforce := enforce } bsq = true)
+    (hp : ∀ ms ∈ ss, List.Forall₂ Pair bsq ms) :
+    ∃ st', decodeUncompressed T edition enforce fuel s4max bsq nbitsSeq true 0 0 ss.length 0
+        { r := R.ofBytes (padSection4 edition (encodeData ss dataFlag 0).2).bytes, invalid := false } [] =
+        .ok (st', ss.map (fun ms => mkvalAll (List.zipWith readBack' bsq ms))) ∧ st'.invalid = false := by
+  obtain ⟨pad, hb, hI⟩ := encodeData_reader ss dataFlag edition
+  obtain ⟨st', e, hinv, _, _⟩ := decodeUncompressed_static T edition enforce fuel s4max bsq nbitsSeq true 0 0
+    (Or.inl rfl) hfuel hok ss 0
+    { r := R.ofBytes (padSection4 edition (encodeData ss dataFlag 0).2).bytes, invalid := false } [] pad hp hI hb
+  exact ⟨st', by simpa using e, hinv⟩
+
 end Bufr
